@@ -1,1 +1,1913 @@
-//! (module owned by one property family; see AGENT_GUIDE.md)
+//! G-valid(v): Lua programs that are valid *by construction* for Lua version v, generated from an
+//! AST of our own following the reference-manual grammar of that version, and G-invalid: one
+//! mutation of the printed token list that makes the program ungrammatical in every version.
+//!
+//! What "valid" covers: the context-free grammar plus the few context conditions the reference
+//! compiler checks at compile time and that we can keep trivially true:
+//!   * `break` only inside loops (5.1: only as last statement of a block), `return` last in block,
+//!   * `...` only inside vararg functions / the main chunk,
+//!   * goto only to a visible label: backward to a label earlier in the same block, or forward to
+//!     a label that is the last statement of an enclosing block (never into the scope of a local),
+//!     label names unique per program,
+//!   * `<const>`/`<close>` locals and loop control variables are never assigned, one `<close>` per
+//!     declaration,
+//!   * 5.5 `global` declarations only inside a dedicated `do … end` that uses declared names only.
+//! Version gating follows the manuals: goto/labels/`;` statements/`\z`/`\x`/hex floats ≥ 5.2,
+//! `//` and bitwise operators and `\u{}` ≥ 5.3, attribs ≥ 5.4, `global` and named varargs 5.5.
+//!
+//! The printer produces a token list (kind + text) and a layout (whitespace / comments between
+//! tokens); the token list is the reference token sequence of the program.
+
+use crate::rng::Rng;
+use emmylua_parser::LuaLanguageLevel;
+use std::collections::{BTreeMap, BTreeSet};
+
+#[derive(Clone, Copy, Debug, PartialEq, Eq, PartialOrd, Ord)]
+pub enum Ver {
+    L51,
+    L52,
+    L53,
+    L54,
+    L55,
+}
+
+pub const VERSIONS: [Ver; 5] = [Ver::L51, Ver::L52, Ver::L53, Ver::L54, Ver::L55];
+
+impl Ver {
+    pub fn level(self) -> LuaLanguageLevel {
+        match self {
+            Ver::L51 => LuaLanguageLevel::Lua51,
+            Ver::L52 => LuaLanguageLevel::Lua52,
+            Ver::L53 => LuaLanguageLevel::Lua53,
+            Ver::L54 => LuaLanguageLevel::Lua54,
+            Ver::L55 => LuaLanguageLevel::Lua55,
+        }
+    }
+    pub fn name(self) -> &'static str {
+        match self {
+            Ver::L51 => "5.1",
+            Ver::L52 => "5.2",
+            Ver::L53 => "5.3",
+            Ver::L54 => "5.4",
+            Ver::L55 => "5.5",
+        }
+    }
+    /// the spelling used by `runtime.version` in .emmyrc
+    pub fn emmyrc_name(self) -> &'static str {
+        match self {
+            Ver::L51 => "Lua5.1",
+            Ver::L52 => "Lua5.2",
+            Ver::L53 => "Lua5.3",
+            Ver::L54 => "Lua5.4",
+            Ver::L55 => "Lua5.5",
+        }
+    }
+    pub fn from_index(i: usize) -> Ver {
+        VERSIONS[i % 5]
+    }
+    pub fn index(self) -> usize {
+        VERSIONS.iter().position(|v| *v == self).unwrap()
+    }
+}
+
+// ------------------------------------------------------------------------------------------
+// AST
+// ------------------------------------------------------------------------------------------
+
+#[derive(Clone, Debug)]
+pub enum Expr {
+    Nil,
+    True,
+    False,
+    Vararg,
+    Num(String),
+    /// source text of a short string including quotes
+    Str(String),
+    /// source text of a long string including brackets
+    LongStr(String),
+    Name(String),
+    Index(Box<Expr>, Box<Expr>),
+    Field(Box<Expr>, String),
+    Call(Box<Expr>, Args),
+    Method(Box<Expr>, String, Args),
+    Func(Box<FuncBody>),
+    Bin(&'static str, Box<Expr>, Box<Expr>),
+    Un(&'static str, Box<Expr>),
+    Paren(Box<Expr>),
+    Table(Vec<TField>, Vec<&'static str>),
+}
+
+#[derive(Clone, Debug)]
+pub enum TField {
+    Pos(Expr),
+    Named(String, Expr),
+    Keyed(Expr, Expr),
+}
+
+#[derive(Clone, Debug)]
+pub enum Args {
+    Paren(Vec<Expr>),
+    Str(Box<Expr>),
+    Table(Box<Expr>),
+}
+
+#[derive(Clone, Debug)]
+pub struct FuncBody {
+    pub params: Vec<String>,
+    /// None: not vararg; Some(None): `...`; Some(Some(n)): `...n` (5.5)
+    pub vararg: Option<Option<String>>,
+    pub body: Block,
+}
+
+#[derive(Clone, Debug, Default)]
+pub struct Block {
+    pub stats: Vec<Stat>,
+}
+
+#[derive(Clone, Debug)]
+pub struct Stat {
+    /// 0 = not individually removable while shrinking (labels, gotos, break/return)
+    pub id: u32,
+    pub kind: SK,
+    /// comment lines printed before the statement (each is a complete comment, no newline)
+    pub lead: Vec<String>,
+    /// short comment printed after the statement on the same line
+    pub trail: Option<String>,
+    /// print a `;` after the statement
+    pub semi: bool,
+}
+
+#[derive(Clone, Debug)]
+pub enum SK {
+    Empty,
+    Assign(Vec<Expr>, Vec<Expr>),
+    Call(Expr),
+    Label(String),
+    Break,
+    Goto(String),
+    Do(Block),
+    While(Expr, Block),
+    Repeat(Block, Expr),
+    If(Vec<(Expr, Block)>, Option<Block>),
+    NumFor(String, Expr, Expr, Option<Expr>, Block),
+    GenFor(Vec<String>, Vec<Expr>, Block),
+    Function(Vec<String>, Option<String>, Box<FuncBody>),
+    LocalFunction(String, Box<FuncBody>),
+    /// names with optional attrib; `prefix_attrib` is the 5.5 `local <const> a, b` form
+    Local(Vec<(String, Option<&'static str>)>, Option<&'static str>, Vec<Expr>),
+    Return(Vec<Expr>),
+    /// 5.5: `global [attrib] names [= exprs]`
+    Global(Vec<String>, Option<&'static str>, Vec<Expr>),
+    /// 5.5: `global [attrib] *`
+    GlobalAll(Option<&'static str>),
+    /// 5.5: `global function name body`
+    GlobalFunction(String, Box<FuncBody>),
+}
+
+#[derive(Clone, Debug)]
+pub struct Program {
+    pub ver: Ver,
+    pub block: Block,
+    pub prods: BTreeMap<&'static str, u32>,
+}
+
+// ------------------------------------------------------------------------------------------
+// generator
+// ------------------------------------------------------------------------------------------
+
+pub struct GenOpts {
+    /// approximate number of statements
+    pub size: usize,
+    /// attach comments / doc comments (formatter checks) — never affects validity
+    pub comments: bool,
+    /// doc-annotation heavy
+    pub docs: bool,
+}
+
+struct G<'a> {
+    rng: &'a mut Rng,
+    ver: Ver,
+    next_id: u32,
+    next_label: u32,
+    budget: i64,
+    prods: BTreeMap<&'static str, u32>,
+    opts: &'a GenOpts,
+}
+
+#[derive(Clone, Copy)]
+struct Cx {
+    vararg: bool,
+    in_loop: bool,
+    depth: u32,
+    /// inside a 5.5 `global` scope: only declared names may be used
+    strict: bool,
+}
+
+const GLOBALS: &[&str] = &["print", "x", "y", "t", "foo", "bar", "obj", "cfg", "math", "string", "self", "M", "tostring", "pairs", "ipairs", "select"];
+const LOCALS: &[&str] = &["a", "b", "c", "v", "n", "s", "acc", "res", "tmp", "_", "item", "cb"];
+const LOOPV: &[&str] = &["i", "j", "k", "idx", "key", "val"];
+const FIELDS: &[&str] = &["name", "id", "x", "y", "next", "value", "len", "new", "__index", "data"];
+const STRICT_NAMES: &[&str] = &["gx", "gy", "gz"];
+
+const DEC_NUMS: &[&str] = &["0", "1", "2", "3", "7", "10", "42", "255", "1000", "65536", "3.14", "0.5", "3.", ".5", "1e10", "1E3", "2e-3", "5E+2", "1.5e3", ".5e1", "9007199254740993", "9223372036854775807", "9223372036854775808", "007", "0.0"];
+const HEX_INTS: &[&str] = &["0x0", "0xff", "0XFF", "0xA", "0x7fffffff", "0xdeadBEEF", "0x10"];
+const HEX_FLOATS: &[&str] = &["0x.1p4", "0xA.8p-1", "0x1p4", "0X1P+2", "0x.8", "0xA.", "0x1.8p1", "0xa.bp0"];
+
+impl<'a> G<'a> {
+    fn p(&mut self, name: &'static str) {
+        *self.prods.entry(name).or_insert(0) += 1;
+    }
+    fn id(&mut self) -> u32 {
+        self.next_id += 1;
+        self.next_id
+    }
+
+    fn num(&mut self) -> Expr {
+        let r = self.rng.below(100);
+        if r < 60 {
+            self.p("num:dec");
+            Expr::Num(self.rng.pick(DEC_NUMS).to_string())
+        } else if r < 82 {
+            self.p("num:hex-int");
+            Expr::Num(self.rng.pick(HEX_INTS).to_string())
+        } else if self.ver >= Ver::L52 {
+            self.p("num:hex-float");
+            Expr::Num(self.rng.pick(HEX_FLOATS).to_string())
+        } else {
+            self.p("num:dec");
+            Expr::Num(format!("{}", self.rng.below(100000)))
+        }
+    }
+
+    fn short_string(&mut self) -> String {
+        let q = if self.rng.bool() { '"' } else { '\'' };
+        let mut s = String::new();
+        s.push(q);
+        let n = self.rng.range(0, 6);
+        for _ in 0..n {
+            match self.rng.below(28) {
+                0..=9 => {
+                    const W: &[&str] = &["a", "hello", " ", "x y", "%d", "key", "/", "-", "--", "[[", "]]", "=", "#", "0", "é", "名", "@", "{}", "()", "--[["];
+                    s.push_str(self.rng.pick(W));
+                }
+                10 => s.push_str("\\n"),
+                11 => s.push_str("\\t"),
+                12 => s.push_str("\\\\"),
+                13 => s.push_str("\\\""),
+                14 => s.push_str("\\'"),
+                15 => s.push_str(self.rng.pick(&["\\a", "\\b", "\\f", "\\r", "\\v"])),
+                // a decimal escape with fewer than three digits must not be followed by a digit (`\65` + `0` = `\650`)
+                16 => s.push_str(self.rng.pick(&["\\0x", "\\65-", "\\065", "\\255", "\\10 ", "\\9z", "\\0650", "\\000"])),
+                17 => {
+                    // the other quote, unescaped
+                    s.push(if q == '"' { '\'' } else { '"' });
+                }
+                18 => {
+                    self.p("str:escaped-newline");
+                    s.push_str("\\\n");
+                }
+                19 | 20 => {
+                    if self.ver >= Ver::L52 {
+                        self.p("str:\\x");
+                        s.push_str(self.rng.pick(&["\\x41", "\\x00", "\\xff", "\\xFf", "\\x7E"]));
+                    }
+                }
+                21 | 22 => {
+                    if self.ver >= Ver::L52 {
+                        self.p("str:\\z");
+                        s.push_str(self.rng.pick(&["\\z  ", "\\z\n   ", "\\z", "\\z \t"]));
+                    }
+                }
+                23 | 24 => {
+                    if self.ver >= Ver::L53 {
+                        self.p("str:\\u");
+                        s.push_str(self.rng.pick(&["\\u{41}", "\\u{0}", "\\u{10FFFF}", "\\u{1F600}", "\\u{00e9}", "\\u{7FF}"]));
+                    }
+                }
+                25 => {
+                    if self.ver >= Ver::L54 {
+                        self.p("str:\\u-large");
+                        s.push_str(self.rng.pick(&["\\u{7FFFFFFF}", "\\u{110000}", "\\u{200000}"]));
+                    }
+                }
+                _ => s.push_str("\\\\n"),
+            }
+        }
+        s.push(q);
+        self.p("str:short");
+        s
+    }
+
+    fn long_bracket_body(&mut self, level: usize) -> String {
+        // content must not contain the closing bracket of this level, and (5.1) no "[[" at level 0
+        const W: &[&str] = &["text", " ", "\n", "line two", "]", "=", "--", "\"q\"", "'", "\\n", "  indented", "\t", "é", "x = 1", "]=", "a]b"];
+        let n = self.rng.range(0, 5);
+        let mut s = String::new();
+        for _ in 0..n {
+            s.push_str(self.rng.pick(W));
+        }
+        let close = format!("]{}]", "=".repeat(level));
+        while s.contains(&close) {
+            s = s.replace(&close, "] ]");
+        }
+        // a trailing `]` (+ `=`*) directly before the closing bracket could complete a different closer
+        while s.ends_with(']') || s.ends_with('=') {
+            s.push(' ');
+        }
+        if level == 0 {
+            while s.contains("[[") {
+                s = s.replace("[[", "[ [");
+            }
+        }
+        s
+    }
+
+    fn long_string(&mut self) -> String {
+        let level = match self.rng.below(10) {
+            0..=5 => 0,
+            6..=7 => 1,
+            8 => 2,
+            _ => 5,
+        };
+        self.p(if level == 0 { "str:long0" } else { "str:longN" });
+        let eq = "=".repeat(level);
+        let body = self.long_bracket_body(level);
+        format!("[{eq}[{body}]{eq}]")
+    }
+
+    fn string_expr(&mut self) -> Expr {
+        if self.rng.chance(1, 5) { Expr::LongStr(self.long_string()) } else { Expr::Str(self.short_string()) }
+    }
+
+    fn name_for_read(&mut self, cx: Cx) -> String {
+        if cx.strict {
+            return self.rng.pick(STRICT_NAMES).to_string();
+        }
+        match self.rng.below(10) {
+            0..=4 => self.rng.pick(GLOBALS).to_string(),
+            5..=7 => self.rng.pick(LOCALS).to_string(),
+            _ => self.rng.pick(LOOPV).to_string(),
+        }
+    }
+
+    fn name_for_write(&mut self, cx: Cx) -> String {
+        if cx.strict {
+            return self.rng.pick(&STRICT_NAMES[..2]).to_string();
+        }
+        if self.rng.bool() { self.rng.pick(GLOBALS).to_string() } else { self.rng.pick(LOCALS).to_string() }
+    }
+
+    /// primaryexp { '.' Name | '[' exp ']' | ':' Name args | args }
+    fn prefix_exp(&mut self, cx: Cx, d: u32) -> Expr {
+        let mut e = if d > 0 && self.rng.chance(1, 6) {
+            self.p("exp:paren");
+            Expr::Paren(Box::new(self.expr(cx, d - 1)))
+        } else {
+            self.p("exp:name");
+            Expr::Name(self.name_for_read(cx))
+        };
+        let n = if d == 0 { self.rng.below(2) } else { self.rng.below(4) };
+        for _ in 0..n {
+            e = match self.rng.below(10) {
+                0..=3 => {
+                    self.p("exp:field");
+                    Expr::Field(Box::new(e), self.rng.pick(FIELDS).to_string())
+                }
+                4..=5 => {
+                    self.p("exp:index");
+                    Expr::Index(Box::new(e), Box::new(self.expr(cx, d.saturating_sub(1))))
+                }
+                6..=7 => {
+                    let a = self.args(cx, d.saturating_sub(1));
+                    self.p("exp:call");
+                    Expr::Call(Box::new(e), a)
+                }
+                _ => {
+                    let a = self.args(cx, d.saturating_sub(1));
+                    self.p("exp:method");
+                    Expr::Method(Box::new(e), self.rng.pick(FIELDS).to_string(), a)
+                }
+            };
+        }
+        e
+    }
+
+    fn args(&mut self, cx: Cx, d: u32) -> Args {
+        match self.rng.below(10) {
+            0 => {
+                self.p("args:string");
+                Args::Str(Box::new(self.string_expr()))
+            }
+            1 => {
+                self.p("args:table");
+                Args::Table(Box::new(self.table(cx, d)))
+            }
+            _ => {
+                let n = self.rng.below(4);
+                self.p("args:paren");
+                Args::Paren((0..n).map(|_| self.expr(cx, d)).collect())
+            }
+        }
+    }
+
+    fn table(&mut self, cx: Cx, d: u32) -> Expr {
+        let n = if d == 0 { self.rng.below(3) } else { self.rng.below(6) };
+        let mut fields = Vec::new();
+        let mut seps = Vec::new();
+        for _ in 0..n {
+            let f = match self.rng.below(10) {
+                0..=4 => {
+                    self.p("field:pos");
+                    TField::Pos(self.expr(cx, d.saturating_sub(1)))
+                }
+                5..=7 => {
+                    self.p("field:named");
+                    TField::Named(self.rng.pick(FIELDS).to_string(), self.expr(cx, d.saturating_sub(1)))
+                }
+                _ => {
+                    self.p("field:keyed");
+                    TField::Keyed(self.expr(cx, d.saturating_sub(1)), self.expr(cx, d.saturating_sub(1)))
+                }
+            };
+            fields.push(f);
+        }
+        for i in 0..n {
+            let last = i + 1 == n;
+            if last {
+                match self.rng.below(6) {
+                    0 => {
+                        self.p("table:trailing-comma");
+                        seps.push(",")
+                    }
+                    1 => {
+                        self.p("table:trailing-semi");
+                        seps.push(";")
+                    }
+                    _ => seps.push(""),
+                }
+            } else if self.rng.chance(1, 6) {
+                self.p("table:semi-sep");
+                seps.push(";")
+            } else {
+                seps.push(",")
+            }
+        }
+        self.p("exp:table");
+        Expr::Table(fields, seps)
+    }
+
+    fn func_body(&mut self, cx: Cx, d: u32, method: bool) -> FuncBody {
+        let _ = method;
+        let np = self.rng.below(4);
+        let mut params = Vec::new();
+        for _ in 0..np {
+            let p = self.rng.pick(LOCALS).to_string();
+            if !params.contains(&p) {
+                params.push(p);
+            }
+        }
+        let vararg = if self.rng.chance(1, 3) {
+            if self.ver >= Ver::L55 && self.rng.chance(1, 3) {
+                self.p("func:named-vararg");
+                Some(Some("rest".to_string()))
+            } else {
+                self.p("func:vararg");
+                Some(None)
+            }
+        } else {
+            None
+        };
+        let inner = Cx { vararg: vararg.is_some(), in_loop: false, depth: cx.depth + 1, strict: cx.strict };
+        let n = self.rng.below(4);
+        let body = self.block(inner, n, d);
+        FuncBody { params, vararg, body }
+    }
+
+    const BIN_51: &'static [&'static str] = &["+", "-", "*", "/", "%", "^", "..", "==", "~=", "<", "<=", ">", ">=", "and", "or"];
+    const BIN_53: &'static [&'static str] = &["//", "&", "|", "~", "<<", ">>"];
+
+    pub fn expr(&mut self, cx: Cx, d: u32) -> Expr {
+        if self.budget <= 0 || d == 0 {
+            return self.simple_expr(cx);
+        }
+        self.budget -= 1;
+        match self.rng.below(100) {
+            0..=29 => self.simple_expr(cx),
+            30..=54 => {
+                let op = if self.ver >= Ver::L53 && self.rng.chance(1, 4) {
+                    let o = self.rng.pick(Self::BIN_53);
+                    self.p(if o == "//" { "op:idiv" } else { "op:bitwise" });
+                    o
+                } else {
+                    let o = self.rng.pick(Self::BIN_51);
+                    self.p(match o {
+                        ".." => "op:concat",
+                        "^" => "op:pow",
+                        "and" | "or" => "op:logic",
+                        "==" | "~=" | "<" | "<=" | ">" | ">=" => "op:cmp",
+                        _ => "op:arith",
+                    });
+                    o
+                };
+                let l = self.expr(cx, d - 1);
+                let r = self.expr(cx, d - 1);
+                Expr::Bin(op, Box::new(l), Box::new(r))
+            }
+            55..=64 => {
+                let op = if self.ver >= Ver::L53 && self.rng.chance(1, 5) {
+                    self.p("op:unary-bnot");
+                    "~"
+                } else {
+                    self.p("op:unary");
+                    self.rng.pick(&["-", "not", "#"])
+                };
+                Expr::Un(op, Box::new(self.expr(cx, d - 1)))
+            }
+            65..=84 => self.prefix_exp(cx, d),
+            85..=91 => self.table(cx, d),
+            92..=96 => {
+                self.p("exp:function");
+                Expr::Func(Box::new(self.func_body(cx, d - 1, false)))
+            }
+            _ => {
+                self.p("exp:paren");
+                Expr::Paren(Box::new(self.expr(cx, d - 1)))
+            }
+        }
+    }
+
+    fn simple_expr(&mut self, cx: Cx) -> Expr {
+        match self.rng.below(20) {
+            0 => {
+                self.p("exp:nil");
+                Expr::Nil
+            }
+            1 => {
+                self.p("exp:true");
+                Expr::True
+            }
+            2 => {
+                self.p("exp:false");
+                Expr::False
+            }
+            3 => {
+                if cx.vararg {
+                    self.p("exp:vararg");
+                    Expr::Vararg
+                } else {
+                    Expr::Nil
+                }
+            }
+            4..=8 => self.num(),
+            9..=12 => self.string_expr(),
+            _ => {
+                self.p("exp:name");
+                Expr::Name(self.name_for_read(cx))
+            }
+        }
+    }
+
+    fn assign_target(&mut self, cx: Cx, d: u32) -> Expr {
+        if self.rng.chance(3, 5) {
+            Expr::Name(self.name_for_write(cx))
+        } else {
+            let base = self.prefix_exp(cx, d);
+            if self.rng.bool() {
+                Expr::Field(Box::new(base), self.rng.pick(FIELDS).to_string())
+            } else {
+                Expr::Index(Box::new(base), Box::new(self.expr(cx, d)))
+            }
+        }
+    }
+
+    fn call_expr(&mut self, cx: Cx, d: u32) -> Expr {
+        let base = self.prefix_exp(cx, d);
+        let a = self.args(cx, d);
+        if self.rng.chance(1, 4) { Expr::Method(Box::new(base), self.rng.pick(FIELDS).to_string(), a) } else { Expr::Call(Box::new(base), a) }
+    }
+
+    fn comment_line(&mut self) -> String {
+        const C: &[&str] = &[
+            "-- plain comment",
+            "--tight",
+            "--  two spaces",
+            "-- TODO: fix   this   later",
+            "--[[ block ]]",
+            "--[==[ level 2 ]==]",
+            "--[[ multi\n     line\n]]",
+            "---",
+            "--- doc description",
+            "---no space",
+            "----------------",
+            "---- four dashes",
+            "-- trailing space   ",
+            "--- ```lua\n--- local x = 1\n---   indented()\n--- ```",
+            "--- | col1 | col2 |",
+            "--- - item\n---   continued",
+            "--é non-ascii",
+            "-- a = b -- c",
+            "--region R\n--endregion",
+        ];
+        self.rng.pick(C).to_string()
+    }
+
+    fn attach_comments(&mut self, s: &mut Stat, doc_target: bool) {
+        if !self.opts.comments {
+            return;
+        }
+        if self.rng.chance(1, 6) {
+            s.lead.push(self.comment_line());
+        }
+        if self.opts.docs && doc_target && self.rng.chance(2, 3) {
+            let mut lines = gen_doc_block(self.rng);
+            s.lead.append(&mut lines);
+        } else if self.opts.docs && self.rng.chance(1, 8) {
+            let mut lines = gen_doc_block(self.rng);
+            s.lead.append(&mut lines);
+        }
+        if self.rng.chance(1, 8) {
+            const T: &[&str] = &["-- trailing", "--t", "--- doc trailing", "--[[ inline block ]]", "---@type integer", "-- x   y"];
+            s.trail = Some(self.rng.pick(T).to_string());
+        }
+    }
+
+    fn stat(&mut self, cx: Cx, d: u32, last: bool) -> Stat {
+        self.budget -= 1;
+        let id = self.id();
+        let mut doc_target = false;
+        let r = self.rng.below(100);
+        let deep = d > 0 && cx.depth < 5 && self.budget > 0;
+        let kind = match r {
+            0..=17 => {
+                let n = self.rng.range(1, 3);
+                let m = self.rng.range(1, 3);
+                self.p(if n > 1 { "stat:multi-assign" } else { "stat:assign" });
+                SK::Assign((0..n).map(|_| self.assign_target(cx, d.min(1))).collect(), (0..m).map(|_| self.expr(cx, d.min(3))).collect())
+            }
+            18..=29 => {
+                self.p("stat:call");
+                SK::Call(self.call_expr(cx, d.min(2)))
+            }
+            30..=44 => {
+                doc_target = true;
+                let n = self.rng.range(1, 3);
+                let mut names: Vec<(String, Option<&'static str>)> = Vec::new();
+                let mut close_used = false;
+                let attribs = self.ver >= Ver::L54 && self.rng.chance(1, 4) && !cx.strict;
+                for k in 0..n {
+                    if attribs {
+                        let a = if !close_used && self.rng.chance(1, 4) {
+                            close_used = true;
+                            Some("close")
+                        } else if self.rng.chance(2, 3) {
+                            Some("const")
+                        } else {
+                            None
+                        };
+                        // attrib'ed names come from a pool that is never assigned
+                        names.push((format!("K{}", k + 1), a));
+                    } else {
+                        names.push((self.rng.pick(LOCALS).to_string(), None));
+                    }
+                }
+                let m = if attribs { n } else { self.rng.below(n + 2) };
+                let prefix = if attribs && self.ver >= Ver::L55 && self.rng.chance(1, 4) {
+                    self.p("stat:local-prefix-attrib");
+                    // a prefix <close> would apply to every name: only legal for a single variable
+                    Some("const")
+                } else {
+                    None
+                };
+                if prefix.is_some() {
+                    // `local <const> a <close>` would mix: keep per-name attribs off
+                    for nm in names.iter_mut() {
+                        nm.1 = None;
+                    }
+                }
+                if attribs {
+                    self.p("stat:local-attrib");
+                }
+                self.p("stat:local");
+                let exprs: Vec<Expr> = (0..m)
+                    .map(|k| {
+                        // a <close> variable needs a value that is nil/false at run time; compile time does not care,
+                        // but keep it tidy
+                        if attribs && names.get(k).map(|x| x.1 == Some("close")).unwrap_or(false) { Expr::Nil } else { self.expr(cx, d.min(3)) }
+                    })
+                    .collect();
+                SK::Local(names, prefix, exprs)
+            }
+            45..=52 if deep => {
+                self.p("stat:if");
+                let nb = self.rng.range(1, 3);
+                let mut arms = Vec::new();
+                for _ in 0..nb {
+                    let c = self.expr(cx, 2);
+                    let n = self.rng.below(3);
+                    arms.push((c, self.block(Cx { depth: cx.depth + 1, ..cx }, n, d - 1)));
+                }
+                if nb > 1 {
+                    self.p("stat:elseif");
+                }
+                let els = if self.rng.bool() {
+                    self.p("stat:else");
+                    let n = self.rng.below(3);
+                    Some(self.block(Cx { depth: cx.depth + 1, ..cx }, n, d - 1))
+                } else {
+                    None
+                };
+                SK::If(arms, els)
+            }
+            53..=57 if deep => {
+                self.p("stat:while");
+                let c = self.expr(cx, 2);
+                let n = self.rng.below(4);
+                SK::While(c, self.loop_block(cx, n, d - 1))
+            }
+            58..=61 if deep => {
+                self.p("stat:repeat");
+                let n = self.rng.below(3);
+                // no goto-continue label directly inside repeat (until sees body locals)
+                let b = self.block(Cx { in_loop: true, depth: cx.depth + 1, ..cx }, n, d - 1);
+                SK::Repeat(b, self.expr(cx, 2))
+            }
+            62..=66 if deep => {
+                self.p("stat:numfor");
+                let v = self.rng.pick(LOOPV).to_string();
+                let e1 = self.expr(cx, 1);
+                let e2 = self.expr(cx, 1);
+                let e3 = if self.rng.chance(1, 3) { Some(self.expr(cx, 1)) } else { None };
+                let n = self.rng.below(4);
+                SK::NumFor(v, e1, e2, e3, self.loop_block(cx, n, d - 1))
+            }
+            67..=71 if deep => {
+                self.p("stat:genfor");
+                let nv = self.rng.range(1, 3);
+                let mut vs: Vec<String> = Vec::new();
+                for _ in 0..nv {
+                    let v = self.rng.pick(LOOPV).to_string();
+                    if !vs.contains(&v) {
+                        vs.push(v);
+                    }
+                }
+                let ne = self.rng.range(1, 2);
+                let es = (0..ne).map(|_| self.expr(cx, 2)).collect();
+                let n = self.rng.below(4);
+                SK::GenFor(vs, es, self.loop_block(cx, n, d - 1))
+            }
+            72..=75 if deep => {
+                self.p("stat:do");
+                let n = self.rng.below(4);
+                SK::Do(self.block(Cx { depth: cx.depth + 1, ..cx }, n, d - 1))
+            }
+            76..=82 if deep && !cx.strict => {
+                doc_target = true;
+                let nseg = self.rng.range(1, 3);
+                let mut path = vec![self.rng.pick(GLOBALS).to_string()];
+                for _ in 1..nseg {
+                    path.push(self.rng.pick(FIELDS).to_string());
+                }
+                let method = if self.rng.chance(1, 3) {
+                    self.p("stat:function-method");
+                    Some(self.rng.pick(FIELDS).to_string())
+                } else {
+                    None
+                };
+                self.p("stat:function");
+                SK::Function(path, method, Box::new(self.func_body(cx, d - 1, true)))
+            }
+            83..=87 if deep => {
+                doc_target = true;
+                self.p("stat:local-function");
+                SK::LocalFunction(self.rng.pick(LOCALS).to_string(), Box::new(self.func_body(cx, d - 1, false)))
+            }
+            88..=89 if self.ver >= Ver::L52 => {
+                self.p("stat:empty");
+                SK::Empty
+            }
+            90..=92 if deep && self.ver >= Ver::L52 => {
+                // backward goto: label first, goto later in a nested position of the same block
+                self.p("stat:goto-backward");
+                self.p("stat:label");
+                self.next_label += 1;
+                let l = format!("L{}", self.next_label);
+                let mut b = Block::default();
+                b.stats.push(Stat { id: 0, kind: SK::Label(l.clone()), lead: vec![], trail: None, semi: false });
+                let n = self.rng.below(3);
+                let mut inner = self.block(Cx { depth: cx.depth + 1, ..cx }, n, d - 1);
+                // the inner block must not end with return/break before our goto: strip a final laststat
+                if matches!(inner.stats.last().map(|s| &s.kind), Some(SK::Return(_)) | Some(SK::Break) | Some(SK::Goto(_))) {
+                    inner.stats.pop();
+                }
+                b.stats.append(&mut inner.stats);
+                let c = self.expr(cx, 1);
+                let mut gb = Block::default();
+                gb.stats.push(Stat { id: 0, kind: SK::Goto(l), lead: vec![], trail: None, semi: false });
+                b.stats.push(Stat { id: 0, kind: SK::If(vec![(c, gb)], None), lead: vec![], trail: None, semi: false });
+                SK::Do(b)
+            }
+            93..=94 if deep && self.ver >= Ver::L55 && !cx.strict && cx.depth == 0 => self.global_block(cx),
+            95..=99 if last => {
+                if cx.in_loop && self.rng.bool() {
+                    self.p("stat:break");
+                    return Stat { id: 0, kind: SK::Break, lead: vec![], trail: None, semi: self.rng.chance(1, 5) };
+                }
+                self.p("stat:return");
+                let n = self.rng.below(3);
+                let es = (0..n).map(|_| self.expr(cx, 2)).collect();
+                return Stat { id: 0, kind: SK::Return(es), lead: vec![], trail: None, semi: self.rng.chance(1, 5) };
+            }
+            _ => {
+                // 5.2+: break may appear in the middle of a block
+                if cx.in_loop && self.ver >= Ver::L52 && self.rng.chance(1, 6) {
+                    self.p("stat:break-mid");
+                    SK::Break
+                } else {
+                    self.p("stat:call");
+                    SK::Call(self.call_expr(cx, d.min(2)))
+                }
+            }
+        };
+        let not_removable = matches!(kind, SK::Break);
+        let mut s = Stat { id: if not_removable { 0 } else { id }, kind, lead: vec![], trail: None, semi: false };
+        // `;` after a statement: always allowed (5.1: `stat [';']`)
+        if self.rng.chance(1, 7) {
+            self.p("stat:semicolon");
+            s.semi = true;
+        }
+        if matches!(s.kind, SK::Empty) {
+            s.semi = false;
+        }
+        self.attach_comments(&mut s, doc_target);
+        s
+    }
+
+    fn global_block(&mut self, cx: Cx) -> SK {
+        // do global gx, gy; global <const> gz = 1; gx = …; global function gf() … end end
+        self.p("stat:global");
+        let scx = Cx { strict: true, depth: cx.depth + 1, ..cx };
+        let mut b = Block::default();
+        let mk = |kind: SK, id: u32| Stat { id, kind, lead: vec![], trail: None, semi: false };
+        b.stats.push(mk(SK::Global(vec!["gx".into(), "gy".into()], None, vec![]), 0));
+        let init = if self.rng.bool() {
+            self.p("stat:global-init");
+            vec![self.num()]
+        } else {
+            vec![]
+        };
+        let attrib = if !init.is_empty() && self.rng.bool() {
+            self.p("stat:global-attrib");
+            Some("const")
+        } else {
+            None
+        };
+        b.stats.push(mk(SK::Global(vec!["gz".into()], attrib, init), 0));
+        let n = self.rng.range(1, 3);
+        for _ in 0..n {
+            let id = self.id();
+            let e = self.expr(scx, 2);
+            b.stats.push(mk(SK::Assign(vec![Expr::Name(self.rng.pick(&STRICT_NAMES[..2]).to_string())], vec![e]), id));
+        }
+        if self.rng.bool() {
+            self.p("stat:global-function");
+            let id = self.id();
+            let body = FuncBody { params: vec![], vararg: None, body: Block { stats: vec![mk(SK::Return(vec![Expr::Name("gx".into())]), 0)] } };
+            b.stats.push(mk(SK::GlobalFunction("gf".into(), Box::new(body)), id));
+        }
+        if self.rng.chance(1, 3) {
+            self.p("stat:global-all");
+            b.stats.push(mk(SK::GlobalAll(None), 0));
+        }
+        SK::Do(b)
+    }
+
+    /// loop body, possibly with the `goto continue` pattern (label as last statement of the body)
+    fn loop_block(&mut self, cx: Cx, n: usize, d: u32) -> Block {
+        let lcx = Cx { in_loop: true, depth: cx.depth + 1, ..cx };
+        if self.ver >= Ver::L52 && self.rng.chance(1, 4) {
+            self.p("stat:goto-forward");
+            self.p("stat:label");
+            self.next_label += 1;
+            let l = format!("continue{}", self.next_label);
+            let mut b = self.block(lcx, n, d);
+            if matches!(b.stats.last().map(|s| &s.kind), Some(SK::Return(_)) | Some(SK::Break) | Some(SK::Goto(_))) {
+                b.stats.pop();
+            }
+            // no local declared at this level may be in scope at the label… a label at the very end of the
+            // block is fine in every version ("void statement" rule), so locals are allowed.
+            let c = self.expr(cx, 1);
+            let mut gb = Block::default();
+            gb.stats.push(Stat { id: 0, kind: SK::Goto(l.clone()), lead: vec![], trail: None, semi: false });
+            let pos = self.rng.below(b.stats.len() + 1);
+            b.stats.insert(pos, Stat { id: 0, kind: SK::If(vec![(c, gb)], None), lead: vec![], trail: None, semi: false });
+            b.stats.push(Stat { id: 0, kind: SK::Label(l), lead: vec![], trail: None, semi: false });
+            b
+        } else {
+            self.block(lcx, n, d)
+        }
+    }
+
+    fn block(&mut self, cx: Cx, n: usize, d: u32) -> Block {
+        let mut b = Block::default();
+        for i in 0..n {
+            let last = i + 1 == n;
+            let s = self.stat(cx, d, last);
+            b.stats.push(s);
+        }
+        b
+    }
+}
+
+pub fn gen_program(rng: &mut Rng, ver: Ver, opts: &GenOpts) -> Program {
+    let mut g = G { rng, ver, next_id: 0, next_label: 0, budget: (opts.size as i64) * 6, prods: BTreeMap::new(), opts };
+    let cx = Cx { vararg: true, in_loop: false, depth: 0, strict: false };
+    let mut block = Block::default();
+    let mut guard = 0;
+    while (block.stats.len() < opts.size && g.budget > 0) || block.stats.is_empty() {
+        guard += 1;
+        if guard > 10_000 {
+            break;
+        }
+        let s = g.stat(cx, 3, false);
+        block.stats.push(s);
+    }
+    if g.rng.chance(1, 3) {
+        let n = g.rng.below(3);
+        let es = (0..n).map(|_| g.expr(cx, 2)).collect();
+        g.p("stat:return");
+        block.stats.push(Stat { id: 0, kind: SK::Return(es), lead: vec![], trail: None, semi: false });
+    }
+    let prods = g.prods;
+    Program { ver, block, prods }
+}
+
+// ------------------------------------------------------------------------------------------
+// doc annotation generator (for formatter checks)
+// ------------------------------------------------------------------------------------------
+
+fn doc_type(rng: &mut Rng, d: u32) -> String {
+    const BASE: &[&str] = &["string", "integer", "number", "boolean", "any", "nil", "table", "A", "B.C", "T", "MyClass", "\"lit\"", "'a'", "1", "true"];
+    if d == 0 {
+        return rng.pick(BASE).to_string();
+    }
+    match rng.below(20) {
+        0..=5 => rng.pick(BASE).to_string(),
+        6 => format!("{}[]", doc_type(rng, d - 1)),
+        7 => format!("{}?", rng.pick(BASE)),
+        8 => {
+            let sp = rng.pick(&["|", " | ", "| ", " |"]);
+            format!("{}{sp}{}", doc_type(rng, d - 1), doc_type(rng, d - 1))
+        }
+        9 => format!("table<{}, {}>", doc_type(rng, d - 1), doc_type(rng, d - 1)),
+        10 => {
+            let ret = if rng.bool() { format!(": {}", doc_type(rng, d - 1)) } else { String::new() };
+            match rng.below(4) {
+                0 => format!("fun(){ret}"),
+                1 => format!("fun(a: {}){ret}", doc_type(rng, d - 1)),
+                2 => format!("fun(a: {}, ...: any){ret}", doc_type(rng, d - 1)),
+                _ => format!("fun(a?: {}, b: {}){ret}", doc_type(rng, d - 1), doc_type(rng, d - 1)),
+            }
+        }
+        11 => format!("(fun(...): {}) | {}", doc_type(rng, d - 1), rng.pick(BASE)),
+        12 => format!("({})[]", doc_type(rng, d - 1)),
+        13 => format!("{{ a: {}, b?: {} }}", doc_type(rng, d - 1), doc_type(rng, d - 1)),
+        14 => format!("[{}, {}]", doc_type(rng, d - 1), doc_type(rng, d - 1)),
+        15 => format!("A<{}>", doc_type(rng, d - 1)),
+        16 => format!("({})", doc_type(rng, d - 1)),
+        17 => format!("{{ [string]: {} }}", doc_type(rng, d - 1)),
+        18 => format!("{} & {}", rng.pick(BASE), rng.pick(BASE)),
+        _ => format!("{}...", rng.pick(BASE)),
+    }
+}
+
+/// A block of doc-comment lines (each a full `---…` line).
+pub fn gen_doc_block(rng: &mut Rng) -> Vec<String> {
+    let mut out = Vec::new();
+    let at = |rng: &mut Rng| rng.pick(&["---@", "---@", "---@", "--- @"]).to_string();
+    let desc = |rng: &mut Rng| -> String {
+        match rng.below(6) {
+            0 => " some description".into(),
+            1 => " # hash description".into(),
+            2 => " @ at description".into(),
+            3 => "  two   spaces inside".into(),
+            _ => String::new(),
+        }
+    };
+    let n = rng.range(1, 5);
+    if rng.chance(1, 3) {
+        out.push(rng.pick(&["--- Summary line.", "---Summary without space", "--- Multi-line", "---   indented text", "--- ```lua", "--- * bullet"]).to_string());
+        if out[0] == "--- ```lua" {
+            out.push("---   local  v  =  1".into());
+            out.push("--- ```".into());
+        }
+    }
+    let kind = rng.below(10);
+    for i in 0..n {
+        let p = at(rng);
+        let line = match kind {
+            0..=2 => {
+                // function-like: params + returns
+                if i + 1 < n || n == 1 {
+                    let name = rng.pick(&["a", "b", "opts", "...", "cb", "self"]);
+                    let q = if name != "..." && rng.chance(1, 4) { "?" } else { "" };
+                    format!("{p}param {name}{q} {}{}", doc_type(rng, 2), desc(rng))
+                } else {
+                    let t = doc_type(rng, 2);
+                    match rng.below(4) {
+                        0 => format!("{p}return {t}"),
+                        1 => format!("{p}return {t} ok{}", desc(rng)),
+                        2 => format!("{p}return {t}, {}", doc_type(rng, 1)),
+                        _ => format!("{p}return {t} # why"),
+                    }
+                }
+            }
+            3..=5 => {
+                // class + fields
+                if i == 0 {
+                    match rng.below(6) {
+                        0 => format!("{p}class MyClass"),
+                        1 => format!("{p}class MyClass: Base"),
+                        2 => format!("{p}class MyClass : Base, Other"),
+                        3 => format!("{p}class (partial) MyClass"),
+                        4 => format!("{p}class MyClass<T>: Base<T>"),
+                        _ => format!("{p}class (exact) MyClass{}", desc(rng)),
+                    }
+                } else {
+                    let vis = rng.pick(&["", "", "private ", "public ", "protected "]);
+                    let key = rng.pick(&["name", "id?", "[string]", "[1]", "[\"quoted key\"]", "['s']", "cb", "x"]);
+                    format!("{p}field {vis}{key} {}{}", doc_type(rng, 2), desc(rng))
+                }
+            }
+            6 => {
+                if i == 0 {
+                    format!("{p}alias MyAlias")
+                } else {
+                    let lit = rng.pick(&["'a'", "\"b\"", "1", "'c d'", "string"]);
+                    let pre = rng.pick(&["---| ", "---|", "--- | ", "---|+ ", "---|> "]);
+                    format!("{pre}{lit}{}", if rng.bool() { " # the description" } else { "" })
+                }
+            }
+            7 => match rng.below(8) {
+                0 => format!("{p}type {}", doc_type(rng, 3)),
+                1 => format!("{p}generic T, K: string"),
+                2 => format!("{p}overload fun(a: string): integer"),
+                3 => format!("{p}alias Id {}", doc_type(rng, 2)),
+                4 => format!("{p}enum MyEnum"),
+                5 => format!("{p}generic T"),
+                6 => format!("{p}type {} desc after type", doc_type(rng, 1)),
+                _ => format!("{p}cast a {}", doc_type(rng, 1)),
+            },
+            _ => rng
+                .pick(&[
+                    "---@deprecated use other",
+                    "---@async",
+                    "---@nodiscard",
+                    "---@see other.thing",
+                    "---@diagnostic disable-next-line: undefined-global",
+                    "---@version >5.1, JIT",
+                    "---@operator add(MyClass): MyClass",
+                    "---@meta",
+                    "---@module 'a.b'",
+                    "---@private",
+                    "---@source file.lua:10",
+                    "---@return_cast a string",
+                    "---@unknowntag whatever   text",
+                    "---@as string",
+                    "---@readonly",
+                    "---@namespace N",
+                    "---@using N",
+                    "---@language lua",
+                ])
+                .to_string(),
+        };
+        out.push(line);
+        if rng.chance(1, 8) {
+            out.push(rng.pick(&["--- continued description line", "---", "---     deep indent", "--- @not a tag"]).to_string());
+        }
+    }
+    out
+}
+
+// ------------------------------------------------------------------------------------------
+// printing
+// ------------------------------------------------------------------------------------------
+
+#[derive(Clone, Copy, Debug, PartialEq, Eq)]
+pub enum TK {
+    Kw,
+    Name,
+    Num,
+    Str,
+    LongStr,
+    Op,
+}
+
+#[derive(Clone, Debug, PartialEq, Eq)]
+pub struct Tok {
+    pub kind: TK,
+    pub text: String,
+}
+
+#[derive(Clone, Debug)]
+enum Piece {
+    T(Tok),
+    /// statement boundary (layout may put a newline here)
+    Stmt,
+    Indent,
+    Dedent,
+    /// a complete comment that must be followed by a line break if `line`
+    Comment(String, bool),
+    /// trailing comment: stays on the line of the previous token
+    Trail(String),
+}
+
+struct Emit {
+    out: Vec<Piece>,
+}
+
+impl Emit {
+    fn kw(&mut self, s: &str) {
+        self.out.push(Piece::T(Tok { kind: TK::Kw, text: s.into() }));
+    }
+    fn op(&mut self, s: &str) {
+        self.out.push(Piece::T(Tok { kind: TK::Op, text: s.into() }));
+    }
+    fn name(&mut self, s: &str) {
+        self.out.push(Piece::T(Tok { kind: TK::Name, text: s.into() }));
+    }
+    fn list(&mut self, es: &[Expr]) {
+        for (i, e) in es.iter().enumerate() {
+            if i > 0 {
+                self.op(",");
+            }
+            self.expr(e);
+        }
+    }
+    fn args(&mut self, a: &Args) {
+        match a {
+            Args::Paren(es) => {
+                self.op("(");
+                self.list(es);
+                self.op(")");
+            }
+            Args::Str(e) | Args::Table(e) => self.expr(e),
+        }
+    }
+    fn func_body(&mut self, f: &FuncBody) {
+        self.op("(");
+        let mut first = true;
+        for p in &f.params {
+            if !first {
+                self.op(",");
+            }
+            first = false;
+            self.name(p);
+        }
+        if let Some(v) = &f.vararg {
+            if !first {
+                self.op(",");
+            }
+            self.op("...");
+            if let Some(n) = v {
+                self.name(n);
+            }
+        }
+        self.op(")");
+        self.block(&f.body);
+        self.kw("end");
+    }
+    fn expr(&mut self, e: &Expr) {
+        match e {
+            Expr::Nil => self.kw("nil"),
+            Expr::True => self.kw("true"),
+            Expr::False => self.kw("false"),
+            Expr::Vararg => self.op("..."),
+            Expr::Num(s) => self.out.push(Piece::T(Tok { kind: TK::Num, text: s.clone() })),
+            Expr::Str(s) => self.out.push(Piece::T(Tok { kind: TK::Str, text: s.clone() })),
+            Expr::LongStr(s) => self.out.push(Piece::T(Tok { kind: TK::LongStr, text: s.clone() })),
+            Expr::Name(n) => self.name(n),
+            Expr::Index(b, i) => {
+                self.expr(b);
+                self.op("[");
+                self.expr(i);
+                self.op("]");
+            }
+            Expr::Field(b, n) => {
+                self.expr(b);
+                self.op(".");
+                self.name(n);
+            }
+            Expr::Call(b, a) => {
+                self.expr(b);
+                self.args(a);
+            }
+            Expr::Method(b, n, a) => {
+                self.expr(b);
+                self.op(":");
+                self.name(n);
+                self.args(a);
+            }
+            Expr::Func(f) => {
+                self.kw("function");
+                self.func_body(f);
+            }
+            Expr::Bin(op, l, r) => {
+                self.expr(l);
+                if *op == "and" || *op == "or" {
+                    self.kw(op)
+                } else {
+                    self.op(op)
+                }
+                self.expr(r);
+            }
+            Expr::Un(op, x) => {
+                if *op == "not" {
+                    self.kw(op)
+                } else {
+                    self.op(op)
+                }
+                self.expr(x);
+            }
+            Expr::Paren(x) => {
+                self.op("(");
+                self.expr(x);
+                self.op(")");
+            }
+            Expr::Table(fs, seps) => {
+                self.op("{");
+                for (i, f) in fs.iter().enumerate() {
+                    match f {
+                        TField::Pos(e) => self.expr(e),
+                        TField::Named(n, e) => {
+                            self.name(n);
+                            self.op("=");
+                            self.expr(e);
+                        }
+                        TField::Keyed(k, e) => {
+                            self.op("[");
+                            self.expr(k);
+                            self.op("]");
+                            self.op("=");
+                            self.expr(e);
+                        }
+                    }
+                    let s = seps.get(i).copied().unwrap_or(",");
+                    let s = if s.is_empty() && i + 1 < fs.len() { "," } else { s };
+                    if !s.is_empty() {
+                        self.op(s);
+                    }
+                }
+                self.op("}");
+            }
+        }
+    }
+    fn attrib(&mut self, a: &str) {
+        self.op("<");
+        self.name(a);
+        self.op(">");
+    }
+    fn block(&mut self, b: &Block) {
+        self.out.push(Piece::Indent);
+        self.stats(&b.stats);
+        self.out.push(Piece::Dedent);
+        self.out.push(Piece::Stmt);
+    }
+    /// A statement that starts with `(` would continue the previous statement (`a = b (f)()`), so the
+    /// previous statement gets a `;` (valid in every version: `stat [';']`).
+    fn stats(&mut self, stats: &[Stat]) {
+        for (i, s) in stats.iter().enumerate() {
+            let next_paren = stats.get(i + 1).map(|n| starts_with_paren(&n.kind)).unwrap_or(false);
+            self.stat(s, next_paren);
+        }
+    }
+    fn stat(&mut self, s: &Stat, force_semi: bool) {
+        self.out.push(Piece::Stmt);
+        for c in &s.lead {
+            // long comments do not need a line break after them, everything else does
+            let line = !(c.starts_with("--[") && c.ends_with(']'));
+            self.out.push(Piece::Comment(c.clone(), line || c.contains('\n')));
+            self.out.push(Piece::Stmt);
+        }
+        match &s.kind {
+            SK::Empty => self.op(";"),
+            SK::Assign(ts, es) => {
+                self.list(ts);
+                self.op("=");
+                self.list(es);
+            }
+            SK::Call(e) => self.expr(e),
+            SK::Label(l) => {
+                self.op("::");
+                self.name(l);
+                self.op("::");
+            }
+            SK::Break => self.kw("break"),
+            SK::Goto(l) => {
+                self.kw("goto");
+                self.name(l);
+            }
+            SK::Do(b) => {
+                self.kw("do");
+                self.block(b);
+                self.kw("end");
+            }
+            SK::While(c, b) => {
+                self.kw("while");
+                self.expr(c);
+                self.kw("do");
+                self.block(b);
+                self.kw("end");
+            }
+            SK::Repeat(b, c) => {
+                self.kw("repeat");
+                self.block(b);
+                self.kw("until");
+                self.expr(c);
+            }
+            SK::If(arms, els) => {
+                for (i, (c, b)) in arms.iter().enumerate() {
+                    self.kw(if i == 0 { "if" } else { "elseif" });
+                    self.expr(c);
+                    self.kw("then");
+                    self.block(b);
+                }
+                if let Some(b) = els {
+                    self.kw("else");
+                    self.block(b);
+                }
+                self.kw("end");
+            }
+            SK::NumFor(v, a, b, c, body) => {
+                self.kw("for");
+                self.name(v);
+                self.op("=");
+                self.expr(a);
+                self.op(",");
+                self.expr(b);
+                if let Some(c) = c {
+                    self.op(",");
+                    self.expr(c);
+                }
+                self.kw("do");
+                self.block(body);
+                self.kw("end");
+            }
+            SK::GenFor(vs, es, body) => {
+                self.kw("for");
+                for (i, v) in vs.iter().enumerate() {
+                    if i > 0 {
+                        self.op(",");
+                    }
+                    self.name(v);
+                }
+                self.kw("in");
+                self.list(es);
+                self.kw("do");
+                self.block(body);
+                self.kw("end");
+            }
+            SK::Function(path, m, f) => {
+                self.kw("function");
+                for (i, p) in path.iter().enumerate() {
+                    if i > 0 {
+                        self.op(".");
+                    }
+                    self.name(p);
+                }
+                if let Some(m) = m {
+                    self.op(":");
+                    self.name(m);
+                }
+                self.func_body(f);
+            }
+            SK::LocalFunction(n, f) => {
+                self.kw("local");
+                self.kw("function");
+                self.name(n);
+                self.func_body(f);
+            }
+            SK::Local(names, prefix, es) => {
+                self.kw("local");
+                if let Some(a) = prefix {
+                    self.attrib(a);
+                }
+                for (i, (n, a)) in names.iter().enumerate() {
+                    if i > 0 {
+                        self.op(",");
+                    }
+                    self.name(n);
+                    if let Some(a) = a {
+                        self.attrib(a);
+                    }
+                }
+                if !es.is_empty() {
+                    self.op("=");
+                    self.list(es);
+                }
+            }
+            SK::Return(es) => {
+                self.kw("return");
+                self.list(es);
+            }
+            SK::Global(names, attrib, es) => {
+                self.kw("global");
+                if let Some(a) = attrib {
+                    self.attrib(a);
+                }
+                for (i, n) in names.iter().enumerate() {
+                    if i > 0 {
+                        self.op(",");
+                    }
+                    self.name(n);
+                }
+                if !es.is_empty() {
+                    self.op("=");
+                    self.list(es);
+                }
+            }
+            SK::GlobalAll(attrib) => {
+                self.kw("global");
+                if let Some(a) = attrib {
+                    self.attrib(a);
+                }
+                self.op("*");
+            }
+            SK::GlobalFunction(n, f) => {
+                self.kw("global");
+                self.kw("function");
+                self.name(n);
+                self.func_body(f);
+            }
+        }
+        if s.semi || (force_semi && !matches!(s.kind, SK::Empty)) {
+            self.op(";");
+        }
+        if let Some(t) = &s.trail {
+            self.out.push(Piece::Trail(t.clone()));
+        }
+    }
+}
+
+/// Layout styles for the printer.
+#[derive(Clone, Copy, Debug, PartialEq, Eq)]
+pub enum Layout {
+    /// one statement per line, indented, single spaces
+    Pretty,
+    /// as little whitespace as lexically possible, statements on one line
+    Compact,
+    /// random whitespace / newlines between tokens
+    Wild,
+}
+
+pub struct Printed {
+    pub text: String,
+    pub tokens: Vec<Tok>,
+    /// byte offset of every token in `text`
+    pub offsets: Vec<usize>,
+}
+
+fn needs_space(left: &Tok, right: &Tok) -> bool {
+    let (Some(l), Some(r)) = (left.text.chars().last(), right.text.chars().next()) else { return false };
+    let wordy = |c: char| c.is_alphanumeric() || c == '_' || !c.is_ascii();
+    if wordy(l) && wordy(r) {
+        return true; // name / keyword / number adjacency
+    }
+    if left.kind == TK::Num && (r == '.' || wordy(r)) {
+        return true; // `1 ..`, `1 .x`, and `3. then` / `0xA. do`: a numeral touching a letter is malformed
+    }
+    if l == '.' && (r == '.' || r.is_ascii_digit()) {
+        return true; // `.. .5`, `.. ...`
+    }
+    // punctuation pairs that would fuse into another token (`- -`, `= =`, `< <`, `> =`, `: :`, `/ /`, `[ [`, `[ =`, `~ =`)
+    const FUSE: &str = "=<>~/:-[&|";
+    if FUSE.contains(l) && FUSE.contains(r) {
+        return true;
+    }
+    false
+}
+
+impl Program {
+    pub fn tokens(&self) -> Vec<Tok> {
+        let mut e = Emit { out: Vec::new() };
+        e.stats(&self.block.stats);
+        e.out.into_iter().filter_map(|p| if let Piece::T(t) = p { Some(t) } else { None }).collect()
+    }
+
+    pub fn print(&self, rng: &mut Rng, layout: Layout) -> Printed {
+        let mut e = Emit { out: Vec::new() };
+        e.stats(&self.block.stats);
+        let nl = "\n";
+        let indent_unit = match rng.below(4) {
+            0 => "\t",
+            1 => "  ",
+            2 => "   ",
+            _ => "    ",
+        };
+        let mut text = String::new();
+        let mut tokens = Vec::new();
+        let mut offsets = Vec::new();
+        let mut depth: usize = 0;
+        let mut prev: Option<Tok> = None; // previous token on the current "glue" run
+        let mut at_line_start = true;
+        let mut need_newline = false; // a line comment was just written
+        let mut pending_stmt = false;
+        for piece in e.out {
+            match piece {
+                Piece::Indent => depth += 1,
+                Piece::Dedent => depth = depth.saturating_sub(1),
+                Piece::Stmt => pending_stmt = true,
+                Piece::Comment(c, line) => {
+                    // comments start on their own line in Pretty, anywhere otherwise
+                    if !at_line_start {
+                        if layout == Layout::Pretty || need_newline || rng.bool() {
+                            text.push_str(nl);
+                            at_line_start = true;
+                        } else {
+                            text.push(' ');
+                        }
+                    }
+                    if at_line_start && layout != Layout::Compact {
+                        for _ in 0..depth {
+                            text.push_str(indent_unit);
+                        }
+                    }
+                    // multi-line doc blocks: indent continuation lines too
+                    let ind: String = if layout != Layout::Compact { indent_unit.repeat(depth) } else { String::new() };
+                    let is_long = c.starts_with("--[");
+                    let mut first = true;
+                    for l in c.split('\n') {
+                        if !first {
+                            text.push_str(nl);
+                            if !is_long {
+                                text.push_str(&ind);
+                            }
+                        }
+                        first = false;
+                        text.push_str(l);
+                    }
+                    at_line_start = false;
+                    need_newline = line;
+                    prev = None;
+                    pending_stmt = false;
+                    if line {
+                        text.push_str(nl);
+                        at_line_start = true;
+                        need_newline = false;
+                    }
+                }
+                Piece::Trail(c) => {
+                    text.push(' ');
+                    text.push_str(&c);
+                    let long = c.starts_with("--[") && c.ends_with(']');
+                    if long {
+                        prev = None;
+                        at_line_start = false;
+                    } else {
+                        text.push_str(nl);
+                        at_line_start = true;
+                        prev = None;
+                    }
+                }
+                Piece::T(t) => {
+                    let sep: String = if at_line_start {
+                        if layout != Layout::Compact { indent_unit.repeat(depth) } else { String::new() }
+                    } else if pending_stmt {
+                        match layout {
+                            Layout::Pretty => format!("{nl}{}{}", if rng.chance(1, 10) { nl } else { "" }, indent_unit.repeat(depth)),
+                            Layout::Compact => " ".into(),
+                            Layout::Wild => match rng.below(6) {
+                                0 => " ".into(),
+                                1 => format!("{nl}{nl}{nl}"),
+                                2 => format!("  {nl}\t"),
+                                _ => format!("{nl}{}", indent_unit.repeat(depth)),
+                            },
+                        }
+                    } else {
+                        let must = prev.as_ref().map(|p| needs_space(p, &t)).unwrap_or(false);
+                        match layout {
+                            Layout::Pretty => {
+                                let p = prev.as_ref().map(|p| p.text.as_str()).unwrap_or("");
+                                let pk = prev.as_ref().map(|p| p.kind);
+                                let no_space_before = t.kind == TK::Op && matches!(t.text.as_str(), "," | ";" | ")" | "]" | "." | ":");
+                                let no_space_after = pk == Some(TK::Op) && matches!(p, "(" | "[" | "." | ":" | "#");
+                                let callish = t.kind == TK::Op && (t.text == "(" || t.text == "[") && (matches!(pk, Some(TK::Name) | Some(TK::Str)) || (pk == Some(TK::Op) && (p == ")" || p == "]")));
+                                if must || !(no_space_before || no_space_after || callish) { " ".into() } else { String::new() }
+                            }
+                            Layout::Compact => {
+                                if must { " ".into() } else { String::new() }
+                            }
+                            Layout::Wild => match rng.below(12) {
+                                0 | 1 | 2 => {
+                                    if must { " ".into() } else { String::new() }
+                                }
+                                3 => "  ".into(),
+                                4 => "\t".into(),
+                                5 => format!("{nl}{}", indent_unit.repeat(depth + 1)),
+                                6 => " --[[c]] ".into(),
+                                7 => format!(" -- c{nl}"),
+                                _ => " ".into(),
+                            },
+                        }
+                    };
+                    text.push_str(&sep);
+                    offsets.push(text.len());
+                    text.push_str(&t.text);
+                    prev = Some(t.clone());
+                    tokens.push(t);
+                    at_line_start = false;
+                    pending_stmt = false;
+                }
+            }
+        }
+        match rng.below(4) {
+            0 => {}
+            1 => text.push_str("\n\n"),
+            _ => text.push('\n'),
+        }
+        Printed { text, tokens, offsets }
+    }
+
+    /// ids of all individually removable statements
+    pub fn stmt_ids(&self) -> Vec<u32> {
+        fn walk(b: &Block, out: &mut Vec<u32>) {
+            for s in &b.stats {
+                if s.id != 0 {
+                    out.push(s.id);
+                }
+                for c in children(&s.kind) {
+                    walk(c, out);
+                }
+            }
+        }
+        let mut v = Vec::new();
+        walk(&self.block, &mut v);
+        v
+    }
+
+    /// keep only the removable statements whose id is in `keep` (id 0 statements always stay)
+    pub fn retain(&self, keep: &BTreeSet<u32>) -> Program {
+        fn prune(b: &Block, keep: &BTreeSet<u32>) -> Block {
+            let mut out = Block::default();
+            for s in &b.stats {
+                if s.id != 0 && !keep.contains(&s.id) {
+                    continue;
+                }
+                let mut s2 = s.clone();
+                map_children(&mut s2.kind, &mut |c| *c = prune(c, keep));
+                out.stats.push(s2);
+            }
+            out
+        }
+        Program { ver: self.ver, block: prune(&self.block, keep), prods: self.prods.clone() }
+    }
+
+    pub fn stmt_count(&self) -> usize {
+        fn walk(b: &Block) -> usize {
+            b.stats.iter().map(|s| 1 + children(&s.kind).into_iter().map(walk).sum::<usize>()).sum()
+        }
+        walk(&self.block)
+    }
+
+    /// fingerprint: the multiset of productions used
+    pub fn fingerprint(&self) -> u64 {
+        let mut s = String::new();
+        for (k, v) in &self.prods {
+            s.push_str(k);
+            s.push(':');
+            s.push_str(&v.to_string());
+            s.push(',');
+        }
+        crate::rng::fnv(s.as_bytes()) ^ (self.ver.index() as u64)
+    }
+}
+
+fn leftmost_is_paren(e: &Expr) -> bool {
+    match e {
+        Expr::Paren(_) => true,
+        Expr::Index(b, _) | Expr::Field(b, _) | Expr::Call(b, _) | Expr::Method(b, _, _) => leftmost_is_paren(b),
+        _ => false,
+    }
+}
+
+fn starts_with_paren(k: &SK) -> bool {
+    match k {
+        SK::Assign(ts, _) => ts.first().map(leftmost_is_paren).unwrap_or(false),
+        SK::Call(e) => leftmost_is_paren(e),
+        _ => false,
+    }
+}
+
+fn func_children(f: &FuncBody) -> Vec<&Block> {
+    vec![&f.body]
+}
+
+fn children(k: &SK) -> Vec<&Block> {
+    match k {
+        SK::Do(b) | SK::While(_, b) | SK::Repeat(b, _) | SK::NumFor(_, _, _, _, b) | SK::GenFor(_, _, b) => vec![b],
+        SK::If(arms, els) => {
+            let mut v: Vec<&Block> = arms.iter().map(|a| &a.1).collect();
+            if let Some(e) = els {
+                v.push(e);
+            }
+            v
+        }
+        SK::Function(_, _, f) | SK::LocalFunction(_, f) | SK::GlobalFunction(_, f) => func_children(f),
+        _ => vec![],
+    }
+}
+
+fn map_children(k: &mut SK, f: &mut dyn FnMut(&mut Block)) {
+    match k {
+        SK::Do(b) | SK::While(_, b) | SK::Repeat(b, _) | SK::NumFor(_, _, _, _, b) | SK::GenFor(_, _, b) => f(b),
+        SK::If(arms, els) => {
+            for a in arms.iter_mut() {
+                f(&mut a.1);
+            }
+            if let Some(e) = els {
+                f(e);
+            }
+        }
+        SK::Function(_, _, fb) | SK::LocalFunction(_, fb) | SK::GlobalFunction(_, fb) => f(&mut fb.body),
+        _ => {}
+    }
+}
+
+// ------------------------------------------------------------------------------------------
+// G-invalid
+// ------------------------------------------------------------------------------------------
+
+/// Mutations that make a valid token list ungrammatical in every Lua version. The argument for
+/// each is a counting / adjacency invariant of the grammar (keywords are reserved, strings and
+/// comments are single tokens):
+///   * DeleteEnd / DeleteThen / DeleteUntil / DeleteDo: #end = #function + #if + #do, #then = #if + #elseif,
+///     #until = #repeat, #do = #while + #for + (#end − #function − #if − … ) … each token count is
+///     determined by the others; removing one breaks the equality.
+///   * DeleteBracket: every bracket kind is balanced.
+///   * DupBinOp: two adjacent binary-only operators never occur.
+///   * DoubleAssign: `=` is never followed by `=`.
+///   * BadNumeral: `0x`, `1e`, `3e+`, `08z` are malformed numerals in every version.
+///   * UnfinishedString / UnfinishedLong / UnfinishedLongComment: lexical errors in every version.
+///   * EscapeTooLarge: `\999` is rejected by every version.
+///   * KeywordAsName: reserved words cannot be names.
+#[derive(Clone, Copy, Debug, PartialEq, Eq)]
+pub enum Mutation {
+    DeleteEnd,
+    DeleteThen,
+    DeleteUntil,
+    DeleteBracket,
+    DupBinOp,
+    DoubleAssign,
+    BadNumeral,
+    UnfinishedString,
+    UnfinishedLong,
+    UnfinishedLongComment,
+    EscapeTooLarge,
+    KeywordAsName,
+}
+
+pub const MUTATIONS: [Mutation; 12] = [
+    Mutation::DeleteEnd,
+    Mutation::DeleteThen,
+    Mutation::DeleteUntil,
+    Mutation::DeleteBracket,
+    Mutation::DupBinOp,
+    Mutation::DoubleAssign,
+    Mutation::BadNumeral,
+    Mutation::UnfinishedString,
+    Mutation::UnfinishedLong,
+    Mutation::UnfinishedLongComment,
+    Mutation::EscapeTooLarge,
+    Mutation::KeywordAsName,
+];
+
+const BIN_ONLY: &[&str] = &["+", "*", "/", "%", "^", "..", "==", "~=", "<", "<=", ">", ">=", "and", "or", "//", "&", "|", "<<", ">>"];
+
+/// Render a token list with single spaces / newlines (always lexically safe).
+pub fn join_tokens(toks: &[Tok]) -> String {
+    let mut s = String::new();
+    for (i, t) in toks.iter().enumerate() {
+        if i > 0 {
+            s.push(if i % 9 == 0 { '\n' } else { ' ' });
+        }
+        s.push_str(&t.text);
+    }
+    s.push('\n');
+    s
+}
+
+/// Apply `m` to the token list; None if the program has no site for it.
+pub fn mutate(rng: &mut Rng, toks: &[Tok], m: Mutation) -> Option<String> {
+    let find = |pred: &dyn Fn(&Tok) -> bool| -> Vec<usize> { toks.iter().enumerate().filter(|(_, t)| pred(t)).map(|(i, _)| i).collect() };
+    let mut v: Vec<Tok> = toks.to_vec();
+    match m {
+        Mutation::DeleteEnd | Mutation::DeleteThen | Mutation::DeleteUntil => {
+            let kw = match m {
+                Mutation::DeleteEnd => "end",
+                Mutation::DeleteThen => "then",
+                _ => "until",
+            };
+            let sites = find(&|t| t.kind == TK::Kw && t.text == kw);
+            if sites.is_empty() {
+                return None;
+            }
+            v.remove(sites[rng.below(sites.len())]);
+            Some(join_tokens(&v))
+        }
+        Mutation::DeleteBracket => {
+            let sites = find(&|t| t.kind == TK::Op && matches!(t.text.as_str(), "(" | ")" | "{" | "}" | "[" | "]"));
+            if sites.is_empty() {
+                return None;
+            }
+            v.remove(sites[rng.below(sites.len())]);
+            Some(join_tokens(&v))
+        }
+        Mutation::DupBinOp => {
+            // only operators in binary position: previous token ends an expression
+            let sites: Vec<usize> = (1..toks.len())
+                .filter(|&i| {
+                    let t = &toks[i];
+                    (t.kind == TK::Op || t.kind == TK::Kw) && BIN_ONLY.contains(&t.text.as_str()) && {
+                        let p = &toks[i - 1];
+                        matches!(p.kind, TK::Name | TK::Num | TK::Str | TK::LongStr) || (p.kind == TK::Op && matches!(p.text.as_str(), ")" | "]" | "}" | "...")) || (p.kind == TK::Kw && matches!(p.text.as_str(), "nil" | "true" | "false" | "end"))
+                    }
+                })
+                // `<` `>` also delimit attribs: skip `<` followed by const/close and `>` after them
+                .filter(|&i| !(toks[i].text == "<" && toks.get(i + 1).map(|n| n.text == "const" || n.text == "close").unwrap_or(false)) && !(toks[i].text == ">" && matches!(toks[i - 1].text.as_str(), "const" | "close")))
+                .collect();
+            if sites.is_empty() {
+                return None;
+            }
+            let i = sites[rng.below(sites.len())];
+            let dup = v[i].clone();
+            v.insert(i, dup);
+            Some(join_tokens(&v))
+        }
+        Mutation::DoubleAssign => {
+            let sites = find(&|t| t.kind == TK::Op && t.text == "=");
+            if sites.is_empty() {
+                return None;
+            }
+            let i = sites[rng.below(sites.len())];
+            v.insert(i, Tok { kind: TK::Op, text: "=".into() });
+            Some(join_tokens(&v))
+        }
+        Mutation::BadNumeral => {
+            let sites = find(&|t| t.kind == TK::Num);
+            if sites.is_empty() {
+                return None;
+            }
+            let i = sites[rng.below(sites.len())];
+            v[i].text = rng.pick(&["0x", "1e", "3e+", "08z", "0xg", "1.2.3", "0x1p"]).to_string();
+            Some(join_tokens(&v))
+        }
+        Mutation::UnfinishedString => {
+            let sites = find(&|t| t.kind == TK::Str);
+            if sites.is_empty() {
+                return None;
+            }
+            let i = sites[rng.below(sites.len())];
+            let q = v[i].text.chars().next().unwrap();
+            // an opening quote, some text, end of line: short strings never span lines
+            let mut s = join_tokens(&v[..i]);
+            s.push(q);
+            s.push_str("unfinished");
+            s.push('\n');
+            s.push_str(&join_tokens(&v[i + 1..]));
+            // a later string with the same quote on the next line cannot close it: short strings end at newline
+            Some(s)
+        }
+        Mutation::UnfinishedLong => {
+            // append an unterminated long string at a place where an expression is expected: after a final `return`
+            let mut s = join_tokens(&v);
+            s.push_str("local __s = [==[ never closed ]] ]=]\n");
+            Some(s)
+        }
+        Mutation::UnfinishedLongComment => {
+            let mut s = join_tokens(&v);
+            s.push_str("--[[ never closed ]=]\n");
+            // a valid program followed by an unfinished long comment is an error in every version
+            Some(s)
+        }
+        Mutation::EscapeTooLarge => {
+            let sites = find(&|t| t.kind == TK::Str);
+            if sites.is_empty() {
+                return None;
+            }
+            let i = sites[rng.below(sites.len())];
+            let q = v[i].text.chars().next().unwrap();
+            v[i].text = format!("{q}a\\999b{q}");
+            Some(join_tokens(&v))
+        }
+        Mutation::KeywordAsName => {
+            // only names in `local NAME` / field positions are certainly names; any Name token works:
+            // a reserved word can never stand where a Name is required
+            let sites: Vec<usize> = (0..toks.len()).filter(|&i| toks[i].kind == TK::Name && i > 0 && toks[i - 1].kind == TK::Kw && toks[i - 1].text == "local").collect();
+            if sites.is_empty() {
+                return None;
+            }
+            let i = sites[rng.below(sites.len())];
+            v[i].text = rng.pick(&["end", "while", "nil", "and", "function", "return"]).to_string();
+            Some(join_tokens(&v))
+        }
+    }
+}
